@@ -66,17 +66,22 @@ def mask(s: str) -> str:
 
 
 def main(argv):
-    args = [a for a in argv if not a.startswith("--")]
+    args = []
+    jobs = 8
+    keep = None
+    it = iter(argv)
+    for a in it:
+        if a == "--jobs":
+            jobs = int(next(it))
+        elif a == "--keep-specs":
+            keep = Path(next(it))
+        else:
+            args.append(a)
     n = int(args[0]) if args else 60
     seed = int(args[1]) if len(args) > 1 else 1
     tier = args[2] if len(args) > 2 else "quick"
-    jobs = 8
-    keep = None
-    for i, a in enumerate(argv):
-        if a == "--jobs":
-            jobs = int(argv[i + 1])
-        if a == "--keep-specs":
-            keep = Path(argv[i + 1])
+    if tier not in ("quick", "thorough"):
+        raise SystemExit(f"unknown tier {tier!r}")
     jobs = max(1, min(jobs, 8, os.cpu_count() or 1))
     t0 = time.time()
     with ProcessPoolExecutor(max_workers=jobs) as ex:
@@ -125,7 +130,7 @@ def main(argv):
     if not details:
         print("   (none)")
     for (prop, kid, d), seeds in sorted(details.items(), key=lambda kv: (kv[0][0], str(kv[0][1]), kv[0][2])):
-        print(f" - {prop} known={kid} x{len(seeds)} seeds={seeds[:4]}\n     {d[:700]}")
+        print(f" - {prop} known={kid} x{len(set(seeds))} seeds={sorted(set(seeds))[:4]}\n     {d[:700]}")
     print()
     print("feature histogram:")
     for k, v in sorted(feat.items()):
